@@ -2,7 +2,7 @@
 import numpy as np
 from hypothesis import strategies as st
 
-from vf import gen, ref, popgen, llbuild, hbuild
+from vf import core, gen, ref, popgen, llbuild, hbuild
 
 ID = 'C02'
 BUDGET = {'quick': 1500, 'thorough': 60000}
@@ -108,6 +108,8 @@ def check(case):
                 got = H(buf)
                 case.close(got, float(np.real(hbuild.ref_hier(s, buf))), rtol=1e-8,
                            what='hierarchical log-likelihood at a re-used vector after %d in-place updates' % rnd)
+                if not core.still_writeable(case, buf, 'HierarchicalLogLikelihood.__call__'):
+                    break
                 j = (rnd * 5 + 1) % len(buf)
                 if rnd < 2:
                     buf[j] *= 1.003
